@@ -74,6 +74,7 @@ class Inst:
         self.expiry_step = None
         self.spans_reload = False
         self.opaque = False     # live across a reload that changed the service table: see World.reconfig()
+        self.opaque_pw = False  # a password arrived while opaque: its meaning (hence the mode state) is unknown
         self.illshaped = []     # texts of ill-shaped passwords (never to be forwarded)
         self.chal_texts = []
 
@@ -176,6 +177,13 @@ class World:
             if self.live:
                 self.probe("reload_tables_with_live_clients")
 
+    def progress_determined(self, i):
+        """C03 for an instance that was live across a change of the service table: the obligation is computed
+        from the queries the daemon was *seen* to send and the answers delivered to them, so it stays
+        determined - a daemon that asks the new services later simply shows a new outstanding query - except
+        for the +! part, which depends on what a password meant and on which answer counted as a stamp."""
+        return not i.opaque or (not i.opaque_pw and "!" not in i.modes)
+
     def required(self):
         if self.policy is None:
             return {"host"}
@@ -248,10 +256,20 @@ class World:
         elif k == "xreply":
             self._xreply(op, e)
         elif k == "adv":
+            t_before = self.now
             self.now += op["ns"]
+            e["expired_now"] = set()
+            # deadlines of finished requests that pass now: their timers must be gone (C10)
+            for i in self.all:
+                if i.ended is not None and i.deadline is not None and (t_before // 1000) * 1000 < i.deadline <= (self.now // 1000) * 1000 \
+                        and not i.expired:
+                    self.probe("deadline_of_finished_request_passes")
+                    if i.cid in self.live:
+                        self.probe("deadline_of_finished_request_passes_while_id_live_again")
             for i in self.live.values():
                 if i.deadline is not None and not i.expired and (self.now // 1000) * 1000 >= i.deadline:
                     i.expired = True
+                    e["expired_now"].add(i)
                     i.expiry_step = self.stepno
                     self.probe("timer_fire")
                     if i.softdone:
@@ -304,7 +322,9 @@ class World:
             if i.ident_blank:
                 i.ident_known = True
         elif ev == "P" and (not self.has_xquery() or i.opaque):
-            pass        # no loaded module gives a password any meaning / meaning undetermined (see reconfig)
+            # no loaded module gives a password any meaning / meaning undetermined (see reconfig)
+            if i.opaque:
+                i.opaque_pw = True
         elif ev == "P":
             if i.challenge and i.creds is not None:
                 # response to a service's MORE challenge
@@ -352,6 +372,10 @@ class World:
         """op carries the resolved 'svc', 'tag', 'kind' (X|x), 'text'."""
         tag, svc, text = op.get("tag"), op["svc"], op.get("text")
         i = self.tags.get(tag) if tag is not None else None
+        if op.get("target") is not None:
+            # the environment addressed this reply to one particular instance (its tag as issued); should the
+            # daemon have handed the same tag to a later instance, the reply is still not meant for that one
+            i = next((x for x in self.all if (x.cid, x.n) == tuple(op["target"])), i)
         if i is None or i.ended is not None or self.live.get(i.cid) is not i:
             e["silent"] = True
             self.probe("xr_stale" if i is not None else "xr_forged_or_unknown_tag")
@@ -469,6 +493,11 @@ class World:
             if av is None or av != i.addr_val or len(g["addr"]) >= 40:
                 self.v("C09", "address", "announced %s, echoed %s in %r" % (i.addr_txt, g["addr"], ln))
             cmd = g["cmd"]
+            if e["kind"] == "adv" and not i.expired:
+                # only request timers make the daemon speak when nothing but the clock moves, and this client's
+                # own deadline has not been reached: some other (finished?) request's timer acted on it
+                self.v(("C10", "C02"), "foreign-timer", "a clock advance that did not reach client %d's deadline produced a line for it "
+                       "(timer of a finished request?): %r" % (cid, ln))
             if ctx is not None and i is not ctx and not e["kind"] == "adv":
                 self.v(("C01", "C07"), "wrong-client", "step about client %d produced a line for client %d: %r" % (ctx.cid, cid, ln))
             if ctx is None and e["kind"] not in ("adv",):
@@ -532,7 +561,7 @@ class World:
             out = [s for s, a in i.awaiting.items() if a]
             # "a final answer to every query sent about it OR an expired request timeout"
             q_ok = (not out) or i.expired
-            if self.data_ok(i) and q_ok and not self.blocked_by_bang(i) and not i.opaque:
+            if self.data_ok(i) and q_ok and not self.blocked_by_bang(i) and self.progress_determined(i):
                 self.v("C03", "stuck", "client %d has all data (%s), no unanswered query (outstanding=%s expired=%s), "
                        "no unmet +! (modes=%s stamp=%s) but no verdict after step %d (%s)" %
                        (cid, "H" if i.hurry else "complete", out, i.expired, "".join(sorted(i.modes)),
@@ -558,7 +587,13 @@ class World:
             owner = ctx
         if owner.ended is not None or self.live.get(owner.cid) is not owner:
             self.v("C01", "query-after-end", "query carries the tag of ended client instance %d/%d: %r" % (owner.cid, owner.n, ln))
-            return
+            if ctx is None or ctx.ended is not None or ctx.tag is not None or ctx.cid != owner.cid:
+                return
+            # the tag of a departed instance was handed to its successor on the same id: already a violation
+            # (above); the query is evidently about the successor, so the other monitors go on following it
+            ctx.tag = tag
+            self.tags[tag] = ctx
+            owner = ctx
         if ctx is not None and owner is not ctx:
             self.v(("C01", "C07"), "wrong-client", "step about client %d produced a query tagged for client %d: %r" % (ctx.cid, owner.cid, ln))
         if ctx is None:
